@@ -51,6 +51,7 @@ func c19Scenario(p c19Params, bound int) vh.SScenario {
 			k.lb.wsPool.Put("b0", conns[1]) // one pool key: Shutdown ranges over a map, whose order would make replays diverge
 			s.Settle()                      // initial probe round
 			stopsReturned := 0
+			var stopTook time.Duration
 			probesAtLastStop := -1
 			reqStatus := 0
 			key, what := "", ""
@@ -75,7 +76,11 @@ func c19Scenario(p c19Params, bound int) vh.SScenario {
 			}
 			for i := 0; i < p.Stops; i++ {
 				ths = append(ths, s.Spawn(fmt.Sprintf("stop%d", i), func() {
+					t0 := s.Clock()
 					k.lb.Stop()
+					if d := s.Clock() - t0; d > stopTook {
+						stopTook = d
+					}
 					stopsReturned++
 					probesAtLastStop = totalProbes()
 				}))
@@ -95,6 +100,11 @@ func c19Scenario(p c19Params, bound int) vh.SScenario {
 			s.Settle() // let whatever is still runnable (loop, probes) run to quiescence
 			s.Branch(false)
 			switch {
+			case stopTook > time.Second:
+				// nothing moves the clock in these scenarios except the scheduler itself when every
+				// thread waits and one of them sleeps: Stop waited for a timer. One second is the
+				// shortest shutdown timeout that can be configured.
+				key, what = "C19/stop-waits-for-a-timer", fmt.Sprintf("Stop returned only after %v of (virtual) time had passed: it waits for something that sleeps, whatever the configured shutdown timeout (1s is configurable)", stopTook)
 			case stopsReturned != p.Stops:
 				key, what = "C19/stop-did-not-return", fmt.Sprintf("%d of %d Stop calls returned", stopsReturned, p.Stops)
 			case totalProbes() != probesAtLastStop:
